@@ -161,7 +161,9 @@ pub fn plans_c02(ctx: &Ctx) -> Vec<LawPlan> {
         let fts: &[Ft] = if fam.int_only() { &[Ft::F64] } else { &[Ft::F32, Ft::F64] };
         for &ft in fts {
             for cell in grid(fam, ft) {
-                plans.push(LawPlan { cell, n: n_grid, origin: "grid" });
+                // the switch-point grid of the discrete samplers: 1.6e7 draws at the quick tier (a per-atom relative
+                // error of 1 % next to a method switch, e.g. a dropped correction term at lambda = 12, is then visible)
+                plans.push(LawPlan { cell, n: n_grid.max(16_000_000), origin: "grid" });
             }
             if fam == Fam::StandardGeometric {
                 continue;
